@@ -107,46 +107,11 @@ func init() {
 		if !n.IsConst() {
 			panic("verifrt.Choose: n must be constant")
 		}
-		// each dynamic call gets its own variable: name#k where k counts calls with this name on the path
-		k := 0
-		for _, c := range st.choices {
-			if strings.HasPrefix(c, name+"#") {
-				k++
-			}
-		}
-		vn := name
-		if k > 0 {
-			vn = fmt.Sprintf("%s#%d", name, k)
-		}
-		v := ex.namedInput(vn, 64)
-		if fv, ok := ex.cfg.Fix[vn]; ok {
-			if _, done := st.concr[v.id]; !done {
-				if fv >= n.c {
-					panic(endPath{"fixed Choose value out of range"})
-				}
-				st.assume(ex.tb.Eq(v, ex.c64(fv)))
-				st.concr[v.id] = fv
-			}
-		}
-		if _, done := st.concr[v.id]; !done {
-			// a fresh choice variable is constrained by nothing but its range: every value is feasible, so the
-			// alternatives are forked without consulting the solver (value 0 continues here)
-			for alt := n.c - 1; alt >= 1; alt-- {
-				child := st.clone()
-				child.assume(ex.tb.Eq(v, ex.c64(alt)))
-				child.concr[v.id] = alt
-				ex.push(child)
-				ex.forks++
-			}
-			if n.c == 0 {
-				panic(endPath{"Choose from an empty range"})
-			}
-			st.assume(ex.tb.Eq(v, ex.c64(0)))
-			st.concr[v.id] = 0
-		}
-		c := ex.concretize(st, v, "Choose "+vn)
-		st.choices = append(st.choices, fmt.Sprintf("%s#=%d", name, c))
-		return ret(f, retTo, ex.c64(c))
+		return ret(f, retTo, ex.c64(ex.chooseValue(st, name, n.c)))
+	}
+	intrinsics[verifrtPath+"SetMapOrderNondet"] = func(ex *Exec, st *State, f *Frame, fn FuncV, args []Value, retTo ssa.Value, instr ssa.Instruction) bool {
+		st.mapOrderNondet = args[0].(*Term).IsTrue()
+		return ret(f, retTo, nil)
 	}
 	intrinsics[verifrtPath+"Assume"] = func(ex *Exec, st *State, f *Frame, fn FuncV, args []Value, retTo ssa.Value, instr ssa.Instruction) bool {
 		c := args[0].(*Term)
@@ -502,6 +467,51 @@ func init() {
 	}
 	intrinsics["errors.Is"] = intrErrorsIs
 	intrinsics["errors.As"] = intrErrorsAs
+}
+
+// chooseValue forks the path over 0..n-1 for the named choice (one path per value, without consulting the solver) and
+// returns the value of the current path. Re-execution of the calling instruction finds the value already fixed.
+func (ex *Exec) chooseValue(st *State, name string, n uint64) uint64 {
+	// each dynamic call gets its own variable: name#k where k counts calls with this name on the path
+	k := 0
+	for _, c := range st.choices {
+		if strings.HasPrefix(c, name+"#") {
+			k++
+		}
+	}
+	vn := name
+	if k > 0 {
+		vn = fmt.Sprintf("%s#%d", name, k)
+	}
+	v := ex.namedInput(vn, 64)
+	if fv, ok := ex.cfg.Fix[vn]; ok {
+		if _, done := st.concr[v.id]; !done {
+			if fv >= n {
+				panic(endPath{"fixed Choose value out of range"})
+			}
+			st.assume(ex.tb.Eq(v, ex.c64(fv)))
+			st.concr[v.id] = fv
+		}
+	}
+	if _, done := st.concr[v.id]; !done {
+		// a fresh choice variable is constrained by nothing but its range: every value is feasible, so the
+		// alternatives are forked without consulting the solver (value 0 continues here)
+		for alt := n - 1; alt >= 1 && alt < n; alt-- {
+			child := st.clone()
+			child.assume(ex.tb.Eq(v, ex.c64(alt)))
+			child.concr[v.id] = alt
+			ex.push(child)
+			ex.forks++
+		}
+		if n == 0 {
+			panic(endPath{"Choose from an empty range"})
+		}
+		st.assume(ex.tb.Eq(v, ex.c64(0)))
+		st.concr[v.id] = 0
+	}
+	c := ex.concretize(st, v, "Choose "+vn)
+	st.choices = append(st.choices, fmt.Sprintf("%s#=%d", name, c))
+	return c
 }
 
 func (ex *Exec) intrinsic(name string, fn *ssa.Function) intrinsicFn {
